@@ -22,6 +22,15 @@ CHECKS = {
             "reachability predicates, decomposition over graphs, purity and store immutability. Bounded by case count and graph size (<=8 nodes).",
             "Trusted: harness/models/t1.py (documented rule); exact differential only when perf caps are off.",
             "DESIGN.md §3 C12"),
+    "C04": ("exploration",
+            "Hypothesis property test of apply_changes against a recording store double + reference model, and generated turn histories through the real orchestrator with per-turn invariants",
+            "(a) generated approved lists x store behaviour scripts (result shapes, 6 exception types, per-delta raise patterns, "
+            "missing batch API / store) x versions x turn ids x cadence x cache-bust settings with a preloaded CacheManager, checked "
+            "against a reference model of the documented contract (call log, exactly-once, version+1, cadence, invalidation counts, "
+            "never raises); (b) 3-8 turn histories through Orchestrator.run_turn with kill switch toggles, store faults and injected "
+            "deltas: store receives exactly what the meta-filter approved, version/log/snapshot discipline, kill-switch inertness.",
+            "Trusted: all-or-nothing store double; the cadence rule int(turn) % n == 0 from apply.py's docstring.",
+            "DESIGN.md §3 C04"),
     "C11": ("exploration",
             "Hypothesis property test: envelope predicates + exact differential against a float64 reference retrieval on well-separated cases + metamorphic rerank-off relation",
             "Generated memories (owners, timestamps around the recency window, clusters, importance, bag-of-words/explicit/zero/missing "
